@@ -11,6 +11,15 @@ REPO = os.environ.get('VERIF_REPO', '/repo')
 
 # group -> (harness file, source file it is appended to, {harness: (clause id, bounded?, note)})
 GROUPS = {
+    'deps': {
+        'harness_file': 'kani/deps_harness.rs', 'append_to': 'src/lib.rs', 'filter': 'verif_kani_deps::',
+        'harnesses': {
+            'dep_f64_to_i128_range': ('dep.f64_to_i128_range', None), 'dep_timedelta_ctor_range': ('dep.timedelta_ctor_range', None),
+            'dep_timedelta_accessors': ('dep.timedelta_accessors', None), 'dep_timedelta_checked_ops': ('dep.timedelta_checked_ops', None),
+            'dep_from_timestamp_total': ('dep.from_timestamp_total', None), 'dep_decimal_from_i128_range': ('dep.decimal_from_i128_range', None),
+        },
+        'advisory': True,
+    },
     'ser': {
         'harness_file': 'kani/ser_harness.rs', 'append_to': 'src/value/ser.rs', 'filter': 'verif_kani::',
         'harnesses': {
